@@ -40,6 +40,14 @@ def plan(tier, seed):
             if i % 8 == 7:         # size-dependent regime: long axes (past 16 / 32)
                 lim = [40, 20, 11][nd - 1]
             shape = [int(rng.integers(1, lim + 1)) for _ in range(nd)]
+            if i % 55 == 27:
+                # realistic sizes: tens of thousands of elements (an image, a long record, a
+                # small volume) - the labelled-element definition is still exact
+                shape = [[int(rng.integers(66000, 72000))], [int(rng.integers(200, 300)),
+                                                              int(rng.integers(250, 330))],
+                         [int(rng.integers(34, 44)), 41, int(rng.integers(40, 48))]][nd - 1]
+                if f in ("array_to_blocks", "blocks_to_array"):
+                    shape = [[4100], [66, 70], [17, 16, 18]][nd - 1]
             c = {"fn": f, "shape": shape, "cplx": bool(rng.random() < 0.5),
                  "dt": pick(rng, ["default", "default", "default", "float32", "complex64",
                                   "int64"]),
